@@ -36,58 +36,84 @@ def run_variant(mod, prop, tier, path, source):
     return run_rules(mod, prop, tier, repo)
 
 
+def _one_variant(job):
+    """Worker: evaluate one variant; returns plain data."""
+    prop, kind, m, base_bad = job
+    from .mutants import apply
+    from .model import repo_root
+
+    mod = load_rules(prop)
+    src = apply(repo_root(), m)
+    if src is None:
+        return (m.name, kind, "inapplicable", None, None)
+    try:
+        v = run_variant(mod, prop, "quick", m.path, src)
+        new_ref = [(f.rule, f.key) for f in v.findings if f.verdict == REFUTED and f.key not in base_bad]
+        new_unk = [(f.rule, f.key) for f in v.findings if f.verdict == UNKNOWN and f.key not in base_bad]
+        err = None
+    except AnalysisError as e:
+        new_ref, new_unk, err = [], [], str(e)
+    except Exception as e:  # a crash of the analysis on a variant is an analysis error, never a verdict
+        new_ref, new_unk, err = [], [], f"internal error: {type(e).__name__}: {e}"
+    return (m.name, kind, "ran", (new_ref, new_unk, err), m.expect)
+
+
 def self_validate(mod, prop, tier, base: Ctx, budget_s: float):
     """Seeded variants must be REFUTED by the named rule, neutral variants must
     stay silent.  Variants are in-memory overlays of the *current* source."""
-    from .mutants import apply
+    import concurrent.futures as cf
+    import multiprocessing as mp
 
-    t0 = time.time()
     res = {"seeded": 0, "detected": 0, "inapplicable": 0, "neutral": 0, "silent": 0,
            "missed": [], "false_alarm": [], "skipped_for_time": 0, "cases": []}
     base_bad = {f.key for f in base.findings if f.verdict in (REFUTED, UNKNOWN)}
-    root = base.repo.root
-    muts = list(getattr(mod, "MUTANTS", []))
-    neus = list(getattr(mod, "NEUTRALS", []))
-    for kind, lst in (("seeded", muts), ("neutral", neus)):
-        for m in lst:
-            if time.time() - t0 > budget_s:
-                res["skipped_for_time"] += 1
-                continue
-            src = apply(root, m)
-            if src is None:
-                res["inapplicable"] += 1
-                res["cases"].append({"variant": m.name, "kind": kind, "result": "inapplicable"})
-                continue
-            try:
-                v = run_variant(mod, prop, "quick", m.path, src)
-                new_ref = [f for f in v.findings if f.verdict == REFUTED and f.key not in base_bad]
-                new_unk = [f for f in v.findings if f.verdict == UNKNOWN and f.key not in base_bad]
-                err = None
-            except AnalysisError as e:
-                new_ref, new_unk, err = [], [], str(e)
-            if kind == "seeded":
-                res["seeded"] += 1
-                hit = [f for f in new_ref if any(f.rule.startswith(x) for x in m.expect)]
-                if hit:
-                    res["detected"] += 1
-                    res["cases"].append({"variant": m.name, "kind": kind, "result": "detected", "by": hit[0].key})
+    jobs = [(prop, "seeded", m, base_bad) for m in getattr(mod, "MUTANTS", [])]
+    jobs += [(prop, "neutral", m, base_bad) for m in getattr(mod, "NEUTRALS", [])]
+    if not jobs:
+        return res
+    workers = min(len(jobs), os.cpu_count() or 4, 16)
+    results = []
+    try:
+        with cf.ProcessPoolExecutor(max_workers=workers, mp_context=mp.get_context("fork")) as ex:
+            futs = [ex.submit(_one_variant, j) for j in jobs]
+            done, pending = cf.wait(futs, timeout=budget_s)
+            for f in futs:
+                if f in done:
+                    results.append(f.result())
                 else:
-                    what = f"seeded variant '{m.name}' not refuted by {m.expect}"
-                    if err:
-                        what += f" (analysis error: {err})"
-                    elif new_unk:
-                        what += f" (undecided: {new_unk[0].key})"
-                    elif new_ref:
-                        what += f" (refuted only by {new_ref[0].rule})"
-                    res["missed"].append(what)
+                    f.cancel()
+                    res["skipped_for_time"] += 1
+    except (OSError, PermissionError):
+        results = [_one_variant(j) for j in jobs]
+    for name, kind, state, payload, expect in results:
+        if state == "inapplicable":
+            res["inapplicable"] += 1
+            res["cases"].append({"variant": name, "kind": kind, "result": "inapplicable"})
+            continue
+        new_ref, new_unk, err = payload
+        if kind == "seeded":
+            res["seeded"] += 1
+            hit = [k for r, k in new_ref if any(r.startswith(x) for x in expect)]
+            if hit:
+                res["detected"] += 1
+                res["cases"].append({"variant": name, "kind": kind, "result": "detected", "by": hit[0]})
             else:
-                res["neutral"] += 1
-                if not new_ref and not new_unk and not err:
-                    res["silent"] += 1
-                    res["cases"].append({"variant": m.name, "kind": kind, "result": "silent"})
-                else:
-                    k = (new_ref or new_unk)[0].key if (new_ref or new_unk) else err
-                    res["false_alarm"].append(f"neutral variant '{m.name}' raised {k}")
+                what = f"seeded variant '{name}' not refuted by {expect}"
+                if err:
+                    what += f" (analysis error: {err})"
+                elif new_unk:
+                    what += f" (undecided: {new_unk[0][1]})"
+                elif new_ref:
+                    what += f" (refuted only by {new_ref[0][0]})"
+                res["missed"].append(what)
+        else:
+            res["neutral"] += 1
+            if not new_ref and not new_unk and not err:
+                res["silent"] += 1
+                res["cases"].append({"variant": name, "kind": kind, "result": "silent"})
+            else:
+                k = (new_ref or new_unk)[0][1] if (new_ref or new_unk) else err
+                res["false_alarm"].append(f"neutral variant '{name}' raised {k}")
     return res
 
 
@@ -103,7 +129,7 @@ def cmd_check(prop: str, tier: str, no_controls: bool = False) -> int:
         ctx = run_rules(mod, prop, tier, repo)
         controls = None
         if not no_controls:
-            budget = 8.0 if tier == "quick" else 600.0
+            budget = 30.0 if tier == "quick" else 600.0
             controls = self_validate(mod, prop, tier, ctx, budget)
         meta = dict(getattr(mod, "META", {}))
         meta["cmd"] = f"./sa check {prop} --tier {tier}"
